@@ -59,6 +59,19 @@ Definition sl_op (stale : bool) (c : scfg) (st : sstate Z) (o : sx) : sstate Z *
       | Some qq => (st, elist (fun m => enat (sindex (s_eps c) (s_dims c) (ss_geom st) m)) qq)
       | None => (st, sx_fail)
       end
+  | SL [SZ 5; q] =>   (* retrieve: cells through the model's index_of, then ArchiveBase.retrieve *)
+      match dlist (dlist dq) q with
+      | Some qq =>
+          (st, elist (fun p : bool * option (nat * row (list Q * Z)) =>
+                        SL [ebool (fst p); eopt (fun ir : nat * row (list Q * Z) => esrow (fst ir, Some (snd ir))) (snd p)])
+                     (retrieve_cells (ss_arch st) (map (sindex (s_eps c) (s_dims c) (ss_geom st)) qq)))
+      | None => (st, sx_fail)
+      end
+  | SL [SZ 6; k] =>   (* sample_elites with the generator's integers *)
+      match dlist dnat k with
+      | Some kk => (st, eres (elist esrow) (sample (ss_arch st) kk))
+      | None => (st, sx_fail)
+      end
   | _ => (st, sx_fail)
   end.
 
